@@ -542,6 +542,10 @@ func (d *Driver) FamUnmarshal(nRandom int, everyNth int) {
 			if longestList(am) > 40 {
 				continue // the packed-length boundary values: canonical form only (each costs the trace specification a long parse)
 			}
+			// every packable list of two or more elements as an unpacked element followed by two packed runs, whatever the seed
+			if n := longestList(am); n >= 2 {
+				d.unmarshalOne(ti, d.S.Encode(t, am, EncOpts{SplitRuns: true}), true, fmt.Sprintf("single-%d/splitruns", i), true)
+			}
 			// every field between two unknown fields, whatever the seed
 			d.unmarshalOne(ti, d.S.Encode(t, am, EncOpts{Sandwich: true, R: d.R}), true, fmt.Sprintf("single-%d/sandwich", i), true)
 			vo := variantOpts[1+d.R.Intn(len(variantOpts)-1)]
@@ -654,6 +658,9 @@ func (d *Driver) FamMutate(perType int, dense bool) {
 			if n%3 == 2 {
 				// known fields between unknown ones
 				eo = EncOpts{Sandwich: true, R: d.R}
+			} else if n%3 == 1 {
+				// repeated fields split over several occurrences, unpacked and packed
+				eo = EncOpts{SplitRuns: true}
 			}
 			b := d.S.Encode(t, am, eo)
 			if len(b) == 0 || len(b) > 400 || longestList(am) > 40 {
